@@ -3,7 +3,7 @@
    gives the byte-level clauses of C07, C08 and C11.  Statements only; proofs in
    Proofs/LexerProofs.v. *)
 From XSG.Model Require Import Strings Necessity Element Parser Dom Lexer.
-From XSG.Proofs Require Import ElementProofs ParserFaults ParserTotal SkelProofs LexerProofs LexerC11 LexerEmpty LexerMisc LexerCData.
+From XSG.Proofs Require Import ElementProofs ParserFaults ParserTotal SkelProofs LexerProofs LexerC11 LexerEmpty LexerMisc LexerCData LexerExpand.
 From Coq Require Import String.
 
 (* the default-configured reader never delivers an end tag that closes nothing: for EVERY byte
@@ -170,6 +170,19 @@ Example C11_bytes_example_text_cdata :
                /\ into_struct_ev (lex_from lex_init (s "<a x='1'><b>some text</b></a>")) = Ok e.
 Proof. exact example_text_cdata. Qed.
 
+(* asking the reader to expand empty elements: that reader is `lex_expanded` = `expand` of the
+   default stream (compared with the real reader configured so on every run), and for EVERY byte
+   string the parse and every extension of a duplicate-free tree are the same *)
+Theorem C11_bytes_expand_empty : forall bs, into_struct_ev (lex_expanded bs) = into_struct_ev (lex bs).
+Proof. exact bytes_expand_empty. Qed.
+Theorem C11_bytes_expand_empty_extend : forall root bs,
+  Uniq root -> extend_struct_ev root (lex_expanded bs) = extend_struct_ev root (lex bs).
+Proof. exact bytes_expand_empty_extend. Qed.
+Example C11_bytes_example_expanded :
+  lex_expanded (s "<a><b x='1'/>t</a>")
+  = [EStart (ROk (s "a")) []; EStart (ROk (s "b")) [AOk (ROk (s "x"))]; EEnd; EText (ROk tt); EEnd].
+Proof. exact example_expanded. Qed.
+
 (* the end-to-end statements above are written with `lex_from lex_init`: that is `lex` on every
    input that does not begin with a byte-order mark, e.g. whose first byte is not 0xEF *)
 Theorem LEX_no_bom : forall bs, fst (strip_bom bs) = bs -> lex bs = lex_from lex_init bs.
@@ -294,3 +307,6 @@ Print Assumptions C11_bytes_text_vs_cdata.
 Print Assumptions C11_bytes_example_text_cdata.
 Print Assumptions LEX_no_bom.
 Print Assumptions LEX_no_bom_first_byte.
+Print Assumptions C11_bytes_expand_empty.
+Print Assumptions C11_bytes_expand_empty_extend.
+Print Assumptions C11_bytes_example_expanded.
